@@ -20,8 +20,8 @@ def specExit (readErrors parseErrors matched : Nat) : Nat :=
 
 /-- How often `x` has to be opened when argument number `i` stands for the files `files i`
     (each list duplicate-free): once for every argument that stands for it. -/
-def specPlanCount {α : Type} [DecidableEq α] (files : List (List α)) (x : α) : Nat :=
-  (files.filter (fun l => decide (x ∈ l))).length
+def specPlanCount {α : Type} [BEq α] (files : List (List α)) (x : α) : Nat :=
+  (files.filter (fun l => l.contains x)).length
 
 /-- Number of read errors the run has to report: one per input that could not be opened or
     failed while being read. -/
